@@ -126,3 +126,38 @@ theorem indep_of_distinct_two_torsion : ∀ (f : ℕ) (P Q TP TQ : G),
 
 end Torsion
 end SqiProofs.BasisAlg
+
+/-! ## the easy half of the 2-descent, from the curve equation: a point of [2]E has a square abscissa (and x − α is a square) -/
+namespace SqiProofs.BasisAlg
+section Descent
+variable {F : Type} [Field F]
+
+/-- abscissa of 2R by the chord–tangent law on y² = x³ + A x² + x, R = (u, v), v ≠ 0 -/
+def dblX (A u v : F) : F := ((3 * u ^ 2 + 2 * A * u + 1) / (2 * v)) ^ 2 - A - 2 * u
+
+/-- x(2R) = ((u² − 1)/(2v))²: the abscissa of a double is a square (descent map of (0,0)) -/
+theorem dblX_is_square (A u v : F) (h2 : (2 : F) ≠ 0) (hv : v ≠ 0) (hc : v ^ 2 = u ^ 3 + A * u ^ 2 + u) :
+    dblX A u v = ((u ^ 2 - 1) / (2 * v)) ^ 2 := by
+  unfold dblX
+  have h2v : (2 * v) ≠ 0 := mul_ne_zero h2 hv
+  field_simp
+  linear_combination (-(4 * A) - 8 * u) * hc
+
+/-- x(2R) − α = ((u² − 2αu + 1)/(2v))² for α a root of x² + A x + 1 (descent map of the 2-torsion point (α, 0)) -/
+theorem dblX_sub_alpha_is_square (A u v α : F) (h2 : (2 : F) ≠ 0) (hv : v ≠ 0) (hc : v ^ 2 = u ^ 3 + A * u ^ 2 + u)
+    (hα : α ^ 2 + A * α + 1 = 0) :
+    dblX A u v - α = ((u ^ 2 - 2 * α * u + 1) / (2 * v)) ^ 2 := by
+  unfold dblX
+  have h2v : (2 * v) ≠ 0 := mul_ne_zero h2 hv
+  field_simp
+  linear_combination (-(4 * A) - 8 * u - 4 * α) * hc + (-(4 * u ^ 2)) * hα
+
+/-- the same abscissa as computed by the x-only doubling formula (affine form of xDBL): (u²−1)² / (4u(u²+Au+1)) -/
+theorem dblX_eq_xonly (A u v : F) (h2 : (2 : F) ≠ 0) (hv : v ≠ 0) (hc : v ^ 2 = u ^ 3 + A * u ^ 2 + u) :
+    dblX A u v = (u ^ 2 - 1) ^ 2 / (4 * u * (u ^ 2 + A * u + 1)) := by
+  rw [dblX_is_square A u v h2 hv hc]
+  have hd : 4 * u * (u ^ 2 + A * u + 1) = (2 * v) ^ 2 := by linear_combination (-4) * hc
+  rw [hd, div_pow]
+
+end Descent
+end SqiProofs.BasisAlg
